@@ -79,6 +79,8 @@ type Ev struct {
 }
 
 type rec struct {
+	seed      int64
+	htail     bool // log length + newest entries of the hash history instead of all of it
 	sparseRep bool // the repetition count is observed only at every fourth event or so
 	w         *bufio.Writer
 	enc       *json.Encoder
@@ -147,6 +149,10 @@ func (r *rec) observe(b *board.Board, e *Ev, judged bool) {
 	}
 	if r.obs["hashes"] {
 		hs := proj.Hashes(b)
+		if r.htail && len(hs) > 8 {
+			// marathon games: the length of the history and its newest entries stand for the whole of it
+			hs = append([]string{fmt.Sprintf("n=%d", len(hs))}, hs[len(hs)-8:]...)
+		}
 		e.Hashes = &hs
 	}
 	if r.obs["fen"] {
@@ -281,6 +287,10 @@ func (r *rec) observeSnap(b *board.Board, e *Ev) {
 	}
 	if r.obs["hashes"] {
 		hs := proj.Hashes(b)
+		if r.htail && len(hs) > 8 {
+			// marathon games: the length of the history and its newest entries stand for the whole of it
+			hs = append([]string{fmt.Sprintf("n=%d", len(hs))}, hs[len(hs)-8:]...)
+		}
 		e.Hashes = &hs
 	}
 }
@@ -428,7 +438,72 @@ func (r *rec) positions(corpus []string, rawEp bool) {
 
 // walk: nested make ... undo sequences over ALL pseudo-legal moves (illegal ones are made and
 // immediately undone, as the search does), null moves where the mover is not in check.
+// marathon: one very long legal game (more than 2,048 plies, an irreversible move well before the clock
+// reaches 100), a make/undo and a null make/undo at every ply from 2,000 on, then the whole game taken back
+func (r *rec) marathon() {
+	r.htail = true
+	defer func() { r.htail = false }()
+	b := r.load(StartPosFEN)
+	type played struct {
+		m  move.Move
+		rv board.Reverse
+	}
+	var st []played
+	target := 2060 + r.rng.Intn(120)
+	for len(st) < target {
+		lm := proj.Playable(b, r.ms)
+		if len(lm) == 0 {
+			break
+		}
+		var pawn, capt, quiet []move.Move
+		for _, x := range lm {
+			switch {
+			case b.SquaresToPiece[x.To()] != NoPiece:
+				capt = append(capt, x)
+			case b.SquaresToPiece[x.From()] == Pawn:
+				pawn = append(pawn, x)
+			default:
+				quiet = append(quiet, x)
+			}
+		}
+		var m move.Move
+		switch {
+		case b.FiftyCnt >= 70 && len(pawn) > 0:
+			m = pawn[r.rng.Intn(len(pawn))]
+		case b.FiftyCnt >= 70 && len(capt) > 0:
+			m = capt[r.rng.Intn(len(capt))]
+		case b.FiftyCnt >= 95:
+			m = 0
+		case len(quiet) > 0:
+			m = quiet[r.rng.Intn(len(quiet))]
+		default:
+			m = lm[r.rng.Intn(len(lm))]
+		}
+		if m == 0 {
+			break
+		}
+		if len(st) >= 2000 {
+			// straddle the round numbers: a move made and taken back, a null move made and taken back
+			x := lm[r.rng.Intn(len(lm))]
+			r.undo(b, x, r.make(b, x, true))
+			if !b.InCheck(b.STM) {
+				r.nullundo(b, r.nullmake(b))
+			}
+		}
+		st = append(st, played{m, r.make(b, m, true)})
+	}
+	for len(st) > 0 {
+		top := st[len(st)-1]
+		st = st[:len(st)-1]
+		r.undo(b, top.m, top.rv)
+	}
+}
+
 func (r *rec) walk(corpus []string, depth int) {
+	if r.obs["hashes"] && r.seed%6 == 0 { // consecutive shard seeds: every sixth shard
+		r.max += 5000 // on top of the shard's budget
+		r.marathon()
+	}
 	for !r.full() {
 		if r.rng.Intn(5) == 0 {
 			// double pushes that set an en-passant target, then every move and the null move below them
@@ -1248,7 +1323,7 @@ func main() {
 	}
 	w := bufio.NewWriterSize(f, 1<<20)
 	defer w.Flush()
-	r := &rec{w: w, enc: json.NewEncoder(w), obs: map[string]bool{}, ms: move.NewStore(), max: *n, rng: rand.New(rand.NewSource(*seed))}
+	r := &rec{w: w, enc: json.NewEncoder(w), obs: map[string]bool{}, ms: move.NewStore(), max: *n, rng: rand.New(rand.NewSource(*seed)), seed: *seed}
 	for _, o := range strings.Split(*obs, ",") {
 		if o != "" {
 			r.obs[o] = true
